@@ -33,6 +33,18 @@ pub static mut RESULT_CALLS: usize = 0;
 pub static mut INPUT_BYTES: usize = 0;
 pub static mut DOMAIN_OK: bool = true;
 
+/*  MONITOR mode (C15b): the digest does not hash; it audits the byte stream it
+    is fed against ONE watched position chosen by the harness as a symbolic
+    value (so the check holds for every position): the byte that arrives at
+    stream offset MON_J must be MON_CJ, and MON_OFF counts the bytes fed. */
+pub static mut MONITOR: bool = false;
+pub static mut MON_J: usize = 0;
+pub static mut MON_CJ: u8 = 0;
+pub static mut MON_OFF: usize = 0;
+pub static mut MON_BAD: bool = false;
+pub static mut MON_SEEN: bool = false;
+pub static mut MON_CALLS: usize = 0;
+
 pub mod digest
 {
     pub trait Digest
@@ -73,6 +85,23 @@ pub mod sha2
         fn input(&mut self, input: &[u8])
         {
             let n = input.len();
+            unsafe
+            {
+                if MONITOR
+                {
+                    MON_CALLS += 1;
+                    if MON_J >= MON_OFF && MON_J - MON_OFF < n
+                    {
+                        MON_SEEN = true;
+                        if input[MON_J - MON_OFF] != MON_CJ
+                        {
+                            MON_BAD = true;
+                        }
+                    }
+                    MON_OFF += n;
+                    return;
+                }
+            }
             unsafe { INPUT_BYTES += n; }
             if n == 0
             {
@@ -101,10 +130,16 @@ pub mod sha2
                 self.buf[self.len] = input[0];
                 self.buf[self.len + 1] = input[1];
             }
+            else if n == 3
+            {
+                self.buf[self.len] = input[0];
+                self.buf[self.len + 1] = input[1];
+                self.buf[self.len + 2] = input[2];
+            }
             else
             {
                 unsafe { DOMAIN_OK = false; }
-                assert!(false, "ideal hash: chunk size outside {0,1,2,32} (harness left the modelled domain)");
+                assert!(false, "ideal hash: chunk size outside {0,1,2,3,32} (harness left the modelled domain)");
                 return;
             }
             self.len += n;
@@ -121,12 +156,17 @@ pub mod sha2
                 if RECORD
                 {
                     assert!(n <= RCAP, "ideal hash: recorded stream longer than RCAP");
-                    let mut i = 0;
-                    while i < RCAP
+                    /*  buf is zero beyond len (never written), CAP >= RCAP is not required: copy the common prefix */
+                    let mut rec = [0u8; RCAP];
+                    if CAP >= RCAP
                     {
-                        LAST_STREAM[i] = if i < n { self.buf[i] } else { 0 };
-                        i += 1;
+                        rec.copy_from_slice(&self.buf[0..RCAP]);
                     }
+                    else
+                    {
+                        rec[0..CAP].copy_from_slice(&self.buf[0..CAP]);
+                    }
+                    LAST_STREAM = rec;
                     LAST_LEN = n;
                     o[0] = 0x7f;
                     out.copy_from_slice(&o);
